@@ -12,8 +12,8 @@ RULE = ("case = generated design biased to connections (whole signals, slices, b
         "5 orderings (order.stmt permutation of all statements per component, order.flip of connect sides, "
         "dup.connect, order.hash object-hash stream) x 2 schedulers x 4..8 cycles; non-trivial = >=3 nets with >=2 "
         "signal members (clk/reset excluded) and >=1 net whose writer is a slice or field; distinct = case digest")
-TIERS = {"quick": {"runs": 480, "budget_s": 100, "chunk": 4},
-         "thorough": {"runs": 40000, "budget_s": 1800, "chunk": 8}}
+TIERS = {"quick": {"runs": 960, "budget_s": 100, "chunk": 4},
+         "thorough": {"runs": 120000, "budget_s": 1800, "chunk": 8}}
 REAL = ["connect / //= (ComponentLevel3._connect_*)", "_collect_vars adjacency merge", "_floodfill_nets",
         "_resolve_value_connections", "GenDAGPass._generate_net_blocks", "PrepareSimPass.lock_in_simulation"]
 STUB = ["design generator", "union-find over the spec's connect statements", "integer reference evaluator"]
